@@ -1,12 +1,16 @@
 import Oracle.Proto
 import Oracle.ActorSys
+import Oracle.Backoff
 /-! Oracle suites of property C04 (the Layer-2 actor-system model is shared by C03–C06). -/
 namespace Oracle.C04
 
 def suites : List (String × Suite) := [
   ("actorsys", Oracle.ActorSys.model),
   ("actorsys-judge", Oracle.ActorSys.judgeC04),
-  ("actorsys-fine-judge", Oracle.ActorSys.judgeC04fine)
+  ("actorsys-fine-judge", Oracle.ActorSys.judgeC04fine),
+  ("backoff-judge", Oracle.Backoff.judge),
+  ("backoff0", Oracle.Backoff.model0),
+  ("backoff0-spec", Oracle.Backoff.spec0)
 ]
 
 end Oracle.C04
